@@ -46,6 +46,7 @@ fn main() {
         ("C11", "drive") => c11::drive(rest),
         ("C11", "hooked") => c11::drive_hooked(rest),
         ("C12", "drive") => c12::drive_c12(rest),
+        ("C12", "hooked") => c12::drive_hooked(rest),
         ("C13", "drive") => c12::drive_c13(rest),
         ("C14", "replay") => c14::replay(rest),
         ("C14", "drive") => c14::drive(rest),
